@@ -121,6 +121,28 @@ class BodyLocks:
                 st.add(d['l'])
         return st
 
+    def _edge_kill(self, p, n):
+        """drop elaboration of a partially moved enum (`if let Ok(g) = m.lock() {..}`): `SWITCH discriminant(_x)` with one
+        arm that only drops _x and another that skips the drop.  On the skipping arm the content of _x was moved out:
+        _x holds no guard there."""
+        blk = self.b.blocks[p]
+        t = blk['term']
+        if t['k'] != 'switch' or t['discr']['k'] not in ('copy', 'move') or t['discr']['place']['p'] or len(blk['stmts']) != 1:
+            return None
+        s = blk['stmts'][0]
+        if s['k'] != 'assign' or s['rv']['k'] != 'discr' or s['place']['l'] != t['discr']['place']['l'] or s['rv']['place']['p']:
+            return None
+        x = s['rv']['place']['l']
+        if x not in self.guards:
+            return None
+        targets = [tb for _, tb in t['arms']] + [t['otherwise']]
+        drops = [tb for tb in targets if tb is not None and self.b.blocks[tb]['term']['k'] == 'drop' and not self.b.blocks[tb]['stmts']
+                 and self.b.blocks[tb]['term']['place']['l'] == x and not self.b.blocks[tb]['term']['place']['p']
+                 and self.b.blocks[tb]['term'].get('line') == t.get('line')]
+        if drops and n not in drops:
+            return x
+        return None
+
     def _block_states(self, bb, st_in):
         st = set(st_in)
         for s in self.b.blocks[bb]['stmts']:
@@ -145,9 +167,14 @@ class BodyLocks:
                     nmust = None
                     for p in ps:
                         o_may = self._term_out(p, self._block_states(p, may_in[p]))
+                        ek = self._edge_kill(p, n)
+                        if ek is not None:
+                            o_may.discard(ek)
                         nm |= o_may
                         if must_in[p] is not None:
                             o_must = self._term_out(p, self._block_states(p, must_in[p]))
+                            if ek is not None:
+                                o_must.discard(ek)
                             nmust = o_must if nmust is None else (nmust & o_must)
                     if nm != may_in[n]:
                         may_in[n] = nm
